@@ -41,13 +41,48 @@ CREATE_GUARDS = [
     ("cp=>2", [PredTrue("len(denoms)==2", eq_test(DEN, r"^Const\(2_usize\)$"))], (ASSUME_CP,)),
     ("amp!=0", [PredFalse("amp!=0", eq_test(r"^msg\.CreatePool\.pool_type\.StableSwap\.amp$", r"^Const\(0_u64\)$"))], (ASSUME_SS,)),
     ("count<=MAX", [PredTrue("len(denoms)<=MAX", rel(DEN, "<=", r"^Const\(4_usize\)$"))], ()),
-    ("fees paid", [TryOk(r"helpers::validate_fees_are_paid$")], ()),
-    ("no extra funds", [TryOk(r"helpers::validate_no_additional_funds_sent_with_pool_creation$")], ()),
     ("fees valid", [TryOk(r"mantra_dex_std::fee::.*::is_valid$")], ()),
-    ("identifier valid", [TryOk(r"helpers::validate_pool_identifier$")], ()),
     ("identifier unused", [PredFalse("pool exists", lambda pn, pa: pn == "is_ok" and origin_match(pa[0], r"^Store\(POOLS\)"))], ()),
     ("lp denom is factory token", [CallTrue(r"mantra_dex_std::coin::is_factory_token$")], ()),
 ]
+
+
+def _funds(v):
+    o = all_origins(v)
+    return bool(o) and all(x.startswith("info.funds") or x.startswith("Const(") for x in o) and any(x.startswith("info.funds") for x in o)
+
+
+def _fee_amount(v):
+    return any(x.startswith("Store(CONFIG).pool_creation_fee") or "denom_creation_fee" in x for x in all_origins(v))
+
+
+def _paid_eq_fee(pn, pa):
+    return pn in ("eq", "ne") and len(pa) > 1 and ((_funds(pa[0]) and _fee_amount(pa[1])) or (_funds(pa[1]) and _fee_amount(pa[0])))
+
+
+def _fund_vs_fee_denom(pn, pa):
+    """a fund coin's denom compared with an expected fee's denom (the extra-funds decision)"""
+    if pn not in ("eq", "ne") or len(pa) < 2:
+        return False
+    a, b = all_origins(pa[0]), all_origins(pa[1])
+    f = lambda s: bool(s) and all(x == "info.funds[*].denom" for x in s)   # noqa: E731
+    g = lambda s: any("denom_creation_fee" in x or x.startswith("Store(CONFIG).pool_creation_fee") for x in s)   # noqa: E731
+    return (f(a) and g(b)) or (f(b) and g(a))
+
+
+def _single_fund_amount(pn, pa):
+    """an individual fund coin's amount (exact, not a paid sum) compared with an expected amount: the extra-funds decision"""
+    if pn not in ("eq", "ne") or len(pa) < 2:
+        return False
+    one = lambda v: exact_origins(v) == {"info.funds[*].amount"} and all_origins(v) == {"info.funds[*].amount"}   # noqa: E731
+    return one(pa[0]) or one(pa[1])
+
+
+def _identifier_len(pn, pa):
+    return pn in ("lt", "le", "gt", "ge") and len(pa) > 1 and any(
+        any(o == "msg.CreatePool.pool_identifier" and "len" in ops for (o, ops) in flat_atoms(x)) for x in pa[:2])
+
+
 FLOORS = {"CUT-create": 12, "WHO-field-writes": 4, "ORDER-coupled-vectors": 4}
 ALLOWED_OVERRIDE = [r"^assets$", r"^assets\.\[\*\]$", r"^assets\.\[\*\]\.amount$", r"^status(\.\w+)?$"]
 
@@ -57,6 +92,49 @@ def run(W, chk):
     for (name, cuts, extra) in CREATE_GUARDS:
         no_effects(chk, W, "CUT-create", "pool_manager", ("CreatePool",), cuts, " [%s]" % name, effects=pool_writes, extra=extra)
 
+    # guards recognised by what they compare (any spelling, any helper name; the named helper is only the first candidate)
+    from rules.common import cut_by_any, decision
+    from rules.common import helper_candidates
+    A0 = W.run("pool_manager", "execute", ("CreatePool",))
+    cut_by_any(chk, W, "CUT-create", "pool_manager", ("CreatePool",), "fees paid",
+               decision("paid == required fee", _paid_eq_fee) + helper_candidates(A0, _paid_eq_fee, "pool_manager::"), effects=pool_writes)
+    cut_by_any(chk, W, "CUT-create", "pool_manager", ("CreatePool",), "no extra funds",
+               decision("every fund coin is an expected fee", _single_fund_amount) + helper_candidates(A0, _single_fund_amount, "pool_manager::"), effects=pool_writes)
+    cut_by_any(chk, W, "CUT-create", "pool_manager", ("CreatePool",), "identifier valid",
+               decision("identifier length bound", _identifier_len) + helper_candidates(A0, _identifier_len, "pool_manager::"), effects=pool_writes)
+    # ---- same-denom case: when a token-factory fee is charged in the creation fee's denom, the amount demanded in that denom is the
+    # sum of both - never the creation fee alone (whatever the configured amounts are, zero included)
+    from rules.common import pred_tree_has
+
+    def _same_denom(pn, pa):
+        if pn not in ("eq", "ne") or len(pa) < 2:
+            return False
+        a, b = all_origins(pa[0]), all_origins(pa[1])
+        tf = lambda s: any("denom_creation_fee" in x and x.endswith(".denom") for x in s)   # noqa: E731
+        cf = lambda s: s == {"Store(CONFIG).pool_creation_fee.denom"}   # noqa: E731
+        return (tf(a) and cf(b)) or (tf(b) and cf(a))
+    from base import AssumeReturn
+    assume = AssumeReturn("assume a token-factory fee in the creation fee's denom", lambda pn, pa: pn == "any" and pred_tree_has(pa[0], _same_denom))
+    pol = CutPolicy([], assume=[assume])
+    S = W.run("pool_manager", "execute", ("CreatePool",), pol)
+    cmps = []
+    for e in S.switches():
+        for a in e.vals[0].atoms:
+            if isinstance(a[0], tuple) and a[0][0] == "pred" and a[0][1] in ("eq", "ne") and len(a[0]) > 3 and _paid_eq_fee(a[0][1], a[0][2:]):
+                exp = a[0][3] if _funds(a[0][2]) else a[0][2]
+                m = {}
+                for (o, ops) in flat_atoms(exp):
+                    m.setdefault(o, []).append(ops)
+                if "Store(CONFIG).pool_creation_fee.amount" in m:
+                    cmps.append((e, m))
+    if not pol.hits or not cmps:
+        chk.skip("ACUT-same-denom-fee", "CreatePool", "no `any(token-factory fee denom == creation fee denom)` decision / creation-fee comparison found in this shape")
+    for (e, m) in cmps[:1]:
+        bare = any("add" not in ops for ops in m["Store(CONFIG).pool_creation_fee.amount"])
+        tfa = any("denom_creation_fee" in o for o in m)
+        chk.expect(tfa and not bare, "ACUT-same-denom-fee", "CreatePool", "with a shared denom the demanded amount is creation fee + token-factory fee",
+                   "although a token-factory fee is charged in the creation fee's denom, the amount demanded in that denom can be the creation fee alone "
+                   "(the token-factory fee is then checked nowhere and is taken from the pools' reserves)", where(e))
     duplicate_guard(W, chk)
     A = W.run("pool_manager", "execute", ("CreatePool",))
     # ---- the only Send is the exact creation fee to the exact fee collector
@@ -76,32 +154,35 @@ def run(W, chk):
 
     # ---- the extra-funds helper decides on every fund coin's denom and amount (required dependence)
     fid = "pool_manager::helpers::validate_no_additional_funds_sent_with_pool_creation"
-    try:
-        H = W.run_fn(fid)
-        dep = set()
-        for e in H.switches():
-            dep |= {o for (o, ops) in H.I.flat(H.store, e.vals[0])}
-        need = {"info.funds[*].denom", "info.funds[*].amount", "total_fees[*].denom", "total_fees[*].amount"}
-        chk.expect(need <= dep, "DEP-extra-funds", "validate_no_additional_funds_sent_with_pool_creation",
-                   "accept/reject depends on each fund coin's denom and amount and on each expected fee's denom and amount",
-                   "the extra-funds decision does not depend on %s (it cannot reject a surplus coin it never looks at)" % sorted(need - dep),
-                   W.F.get(fid).span)
-        fid2 = "pool_manager::helpers::validate_fees_are_paid"
-        H = W.run_fn(fid2)
-        eqs = []
-        for e in H.switches():
-            for a in e.vals[0].atoms:
-                if isinstance(a[0], tuple) and a[0][0] == "pred" and a[0][1] == "eq":
-                    l = {o for (o, ops) in H.I.flat(H.store, a[0][2])}
-                    r = {o for (o, ops) in H.I.flat(H.store, a[0][3])}
-                    eqs.append((l, r))
-        paid_vs_fee = [1 for (l, r) in eqs if any(o.startswith("info.funds") for o in l | r) and
-                       any(o.startswith("pool_creation_fee.amount") or o.startswith("denom_creation_fee") for o in l | r)]
-        chk.expect(len(paid_vs_fee) >= 2, "DEP-fees-paid", "validate_fees_are_paid",
-                   "paid amounts are compared for equality with the creation fee and with each token-factory fee",
-                   "equality comparisons of paid funds with the expected fees not found (%d)" % len(paid_vs_fee), W.F.get(fid2).span)
-    except KeyError as ex:
-        chk.fail("DEP-extra-funds", "anchor", "helper not found: %s" % ex, "")
+    if not (W.has_fn(fid) and W.has_fn("pool_manager::helpers::validate_fees_are_paid")):
+        chk.skip("DEP-extra-funds", "named helpers", "helpers not found under these names; the entry-level CUT-create guards above decide the clause")
+    else:
+      try:
+          H = W.run_fn(fid)
+          dep = set()
+          for e in H.switches():
+              dep |= {o for (o, ops) in H.I.flat(H.store, e.vals[0])}
+          need = {"info.funds[*].denom", "info.funds[*].amount", "total_fees[*].denom", "total_fees[*].amount"}
+          chk.expect(need <= dep, "DEP-extra-funds", "validate_no_additional_funds_sent_with_pool_creation",
+                     "accept/reject depends on each fund coin's denom and amount and on each expected fee's denom and amount",
+                     "the extra-funds decision does not depend on %s (it cannot reject a surplus coin it never looks at)" % sorted(need - dep),
+                     W.F.get(fid).span)
+          fid2 = "pool_manager::helpers::validate_fees_are_paid"
+          H = W.run_fn(fid2)
+          eqs = []
+          for e in H.switches():
+              for a in e.vals[0].atoms:
+                  if isinstance(a[0], tuple) and a[0][0] == "pred" and a[0][1] == "eq":
+                      l = {o for (o, ops) in H.I.flat(H.store, a[0][2])}
+                      r = {o for (o, ops) in H.I.flat(H.store, a[0][3])}
+                      eqs.append((l, r))
+          paid_vs_fee = [1 for (l, r) in eqs if any(o.startswith("info.funds") for o in l | r) and
+                         any(o.startswith("pool_creation_fee.amount") or o.startswith("denom_creation_fee") for o in l | r)]
+          chk.expect(len(paid_vs_fee) >= 2, "DEP-fees-paid", "validate_fees_are_paid",
+                     "paid amounts are compared for equality with the creation fee and with each token-factory fee",
+                     "equality comparisons of paid funds with the expected fees not found (%d)" % len(paid_vs_fee), W.F.get(fid2).span)
+      except KeyError as ex:
+          chk.fail("DEP-extra-funds", "anchor", "helper not found: %s" % ex, "")
 
     # ---- uniqueness: counter, prefixes, lp denom
     for e in A.writes():
